@@ -83,6 +83,13 @@ class Folder(object):
             return e.value
         if isinstance(e, ast.BinOp) and isinstance(e.op, ast.Add):
             return self.expr(module, e.left) + self.expr(module, e.right)
+        if isinstance(e, ast.BinOp) and isinstance(e.op, ast.Mult):
+            # "x" * 3, 3 * "x", small integer products
+            l_, r_ = self.expr(module, e.left), self.expr(module, e.right)
+            if (isinstance(l_, (str, list)) and isinstance(r_, int) and 0 <= r_ <= 64) or (isinstance(r_, (str, list)) and isinstance(l_, int) and 0 <= l_ <= 64) \
+                    or (isinstance(l_, int) and isinstance(r_, int)):
+                return l_ * r_
+            raise AnalysisError("cannot fold constant expression: %s" % ast.unparse(e))
         if isinstance(e, ast.Name):
             return self.name(module, e.id)
         if isinstance(e, ast.Attribute):
